@@ -11,7 +11,7 @@
    and data_bytes sums against the recorded calls; concurrent variant with 50 (quick) / 500 (thorough) connections open at
    once on one listener.
 """
-import copy, json, random
+import copy, json, os, random
 import vlib
 from checks import tc_common as tc
 
@@ -79,7 +79,7 @@ def run(ctx):
 
     rng = random.Random(ctx.seed)
     behs = tc.gen(ctx, "Gen_TcpConn_C15.cfg", 2000 if q else 20000, seed=ctx.seed)
-    pick = tc.select(behs, 150 if q else 2000, lambda f: (f["hs"], f["tk"], f["bad"], f["rst"], f["dial"], min(f["trecv"] + f["crecv"], 2), f["tclose"], f["crst"],
+    pick = tc.select(behs, 130 if q else 2000, lambda f: (f["hs"], f["tk"], f["bad"], f["rst"], f["dial"], min(f["trecv"] + f["crecv"], 2), f["tclose"], f["crst"],
                                                           min(f["after_close"], 2)), rng)
     cases, _, pr, hung = tc.run_family(ctx, "C15_", pick, label="c15-outcomes", par=8, prom=True, **tc.TIMED)
     if hung:
@@ -123,6 +123,39 @@ def run(ctx):
         if c["mlog"] and c["mlog"][-1]["m"] == "Closed":
             k = "%s%s:%s" % ("tclose" if c["tcl"] != "no" else "", "crst" if c["crst"] else "", c["mlog"][-1]["s"])
             ctx.cov["socket_error_outcomes"][k] = ctx.cov["socket_error_outcomes"].get(k, 0) + 1
+
+    # the server's wiring layer, service.NewShadowsocksService(...).HandleStream with a recording ServiceMetrics (the metrics
+    # object of a connection is what AddOpenTCPConnection returns):
+    #  (a) connections handed out right before accept reports net.ErrClosed (StreamServe with the harness' accept function)
+    of = os.path.join(ctx.sub("burst"), "burst.ndjson")
+    rc, out, err = vlib.run([tc.driver(ctx), "burst", "-rounds", str(30 if q else 200), "-n", "3", "-seed", str(ctx.seed), "-out", of],
+                            env=vlib.goenv(), timeout=900)
+    if rc != 0:
+        raise vlib.Inconclusive("tcpconn burst failed rc=%d: %s" % (rc, err[-1500:]))
+    bcases = [r for r in vlib.read_ndjson(of) if r.get("ev") == "Case"]
+    bbad = tc.judge(ctx, bcases, tc.REAL_SLACK, label="c15-service-layer-shutdown")
+    ctx.cov["evaluations"] += len(bcases) // 3
+    ctx.cov["distinct_nontrivial"] += 1
+    ctx.cov["service_layer"] = {"burst_connections": len(bcases)}
+    for i in sorted(bbad):
+        mine = sorted(p for p in bbad[i][0] if p.startswith("C15_"))
+        if mine:
+            ctx.violation({"module": "TcpConn", "kind": mine[0], "where": "service/shadowsocks.go HandleStream (connection accepted as the listener closes)"},
+                          "%s: %s [connection handed out right before accept reported net.ErrClosed, handled through "
+                          "ssService.HandleStream; %d of %d such connections] observed: %s" % (
+                              mine[0], tc.DESCR.get(mine[0], ""), sum(1 for j in bbad if mine[0] in bbad[j][0]), len(bcases),
+                              json.dumps(tc.brief(bcases[i]))),
+                          {"module": "TcpConn", "burst": True, "case": bcases[i]})
+            break
+    #  (b) probe behaviours under virtual time (the service's own 59 s timeout), again through HandleStream
+    try:
+        from checks import tc_vt
+        vb = [b for b in pick if len(b["sc"]) == 1 and b["sc"][0]["hs"] != "valid" and not tc.features(b)["lclose"]][:40 if q else 400]
+        vcases = tc_vt.run_vt(ctx, vb, "c15-vt-service", via_service=True)
+        tc_vt.report(ctx, vcases, vb, "c15-vt-service-layer", prefix="C15_")
+        ctx.cov["service_layer"]["virtual_time_probes"] = len(vcases)
+    except ImportError:
+        ctx.cov["skipped"].append("virtual-time variant: not built")
 
     # concurrent: n single-connection behaviours (no clock) merged into one, all on one listener at once
     n = 50 if q else 500
